@@ -48,7 +48,7 @@ impl Prop for C01 {
         "C01"
     }
     fn rule(&self) -> &'static str {
-        "per seed: generated schemas (objects, interfaces incl. interface-implements-interface, inherited property pool, edges to objects/interfaces/ancestors/self with parameters) x 2 datasets (<= 6 vertices per concrete type, boundary integers in both representations, nulls, strings with regex metacharacters, duplicate neighbours) x ~10 type-directed queries (depth <= 4: plain/optional/fold/recurse edges, coercions, every filter operator with variable and tag operands incl. tags imported into (nested) folds and fold-count tags, count outputs/filters, edge parameters explicit and defaulted). Appended to these random worlds (after them in the one Rng stream, so they are unchanged): the DIRECTED tagged-regex worlds (quick 4, thorough 40; engine/tagged_regex.rs): schema I0 {id p s e0:[I0] e1:I0} / T0:I0 {e2:[T1]} / T1:I0, 2 datasets of 5..11 vertices whose tagged String property p comes in RUNS (length 1..3, in id order = start order) from a small pool of valid patterns that match some texts (a a.* ^b . \"\" b$ ^a ab), invalid patterns (( [a * \\) and null, biased to valid->invalid->valid alternation, texts s from a small pool; 8 queries, one per template: p @tag ... s @filter(op: regex|not_regex, value: [%tag]) with the filter on the same vertex / a neighbour / inside @optional / inside @fold (imported tag) / inside a nested fold, the tag on the root vertex / an inner vertex / inside an @optional scope (nonexistent-optional tag values), and the same tag used by two filters behind a variable filter and a coercion. These cases are tagged nt:tagged-regex-stream (whenever they executed; the regex table of each request lists every dataset string as a pattern, invalid ones as (<hex> 0)). Only queries accepted by the real frontend and by argument validation are executed; each (schema, dataset, query, args) is sent as (exec ...) [model = Interp over the rendered real IR] and (spec-exec ...) [model = declarative Spec over the generator's tree]. A case is non-trivial (nt:<feature>+rows) when the query uses at least one of fold / optional / recurse / tag / coercion AND the implementation returned at least one row on that dataset. Oracle here: implementation panics on accepted queries (keyed by panic site); the declarative comparison is done by ./check on the spec-exec answers."
+        "per seed: generated schemas (objects, interfaces incl. interface-implements-interface, inherited property pool, edges to objects/interfaces/ancestors/self with parameters) x 2 datasets (<= 6 vertices per concrete type, boundary integers in both representations, nulls, strings with regex metacharacters, duplicate neighbours) x ~10 type-directed queries (depth <= 4: plain/optional/fold/recurse edges, coercions, every filter operator with variable and tag operands incl. tags imported into (nested) folds and fold-count tags, count outputs/filters, edge parameters explicit and defaulted). Appended to these random worlds (after them in the one Rng stream, so they are unchanged): the DIRECTED tagged-regex worlds (quick 4, thorough 40; engine/tagged_regex.rs): schema I0 {id p s e0:[I0] e1:I0} / T0:I0 {e2:[T1]} / T1:I0, 2 datasets of 5..11 vertices whose tagged String property p comes in RUNS (length 1..3, in id order = start order) from a small pool of valid patterns that match some texts (a a.* ^b . \"\" b$ ^a ab), invalid patterns (( [a * \\) and null, biased to valid->invalid->valid alternation, texts s from a small pool; 8 queries, one per template: p @tag ... s @filter(op: regex|not_regex, value: [%tag]) with the filter on the same vertex / a neighbour / inside @optional / inside @fold (imported tag) / inside a nested fold, the tag on the root vertex / an inner vertex / inside an @optional scope (nonexistent-optional tag values), and the same tag used by two filters behind a variable filter and a coercion. These cases are tagged nt:tagged-regex-stream (whenever they executed; the regex table of each request lists every dataset string as a pattern, invalid ones as (<hex> 0)). Likewise appended: the DIRECTED recurse-from-strict-subtype worlds (same number; engine/recurse_subtype.rs; nt:recurse-from-strict-subtype): an edge e0 declared on interface I1 (implements I0) and inherited by T0 and T1, target = the super-interface I0 (implicit coercion to I1 at depth >= 2; every fourth world: target = I1 itself), @recurse(depth: 2|3) starting at a T0-typed vertex (entry point RT0, coercion ... on T0 from I1 / I0, inner vertex, inside @fold / @optional), data in which T0 vertices have T1 neighbours that have neighbours. Only queries accepted by the real frontend and by argument validation are executed; each (schema, dataset, query, args) is sent as (exec ...) [model = Interp over the rendered real IR] and (spec-exec ...) [model = declarative Spec over the generator's tree]. A case is non-trivial (nt:<feature>+rows) when the query uses at least one of fold / optional / recurse / tag / coercion AND the implementation returned at least one row on that dataset. Oracle here: implementation panics on accepted queries (keyed by panic site); the declarative comparison is done by ./check on the spec-exec answers."
     }
     fn generate(&self, tier: Tier, rng: &mut Rng) -> Vec<Case> {
         let (worlds, stats) = generate_worlds(rng, &WorldKnobs::for_tier(tier));
@@ -68,8 +68,10 @@ impl Prop for C01 {
     fn post_tags(&self, e: &Evaluated) -> Vec<String> {
         let mut t = nontrivial_tags(e);
         // directed family: the tagged regex filter saw a stream of contexts (whatever it let through)
-        if e.answer.starts_with("(rows") && e.tags.iter().any(|t| t == engine::tagged_regex::FEATURE) {
-            t.push(format!("nt:{}", engine::tagged_regex::FEATURE));
+        for f in [engine::tagged_regex::FEATURE, engine::recurse_subtype::FEATURE] {
+            if e.answer.starts_with("(rows") && e.tags.iter().any(|t| t == f) {
+                t.push(format!("nt:{f}"));
+            }
         }
         if e.answer == "(rows)" {
             t.push("rows:0".into());
@@ -359,7 +361,7 @@ impl Prop for C21 {
         "C21"
     }
     fn rule(&self) -> &'static str {
-        "the worlds of C01; per accepted (query, dataset) one (contract-exec <schema> <data> <query> <ir> <args>) request: the implementation runs the query under the contract-checking adapter and answers the rows exactly like exec (model = rows of the Lean Interp). Oracle on the implementation: the contract-checking wrapper adapter validates every real call against the generated schema and the dataset's typing: type defined; property defined on it or __typename; edge defined on it; coercion only from an interface to a strict subtype; parameters = exactly the declared names with values valid for the declared types (explicit / default / null); every non-None active vertex pulled through a call is an instance of the named type. Non-trivial (nt:<feature>): the query has a recursion with implicit coercion or from a subtype, a coercion, a fold inside an optional scope, an imported tag, or an edge parameter."
+        "the worlds of C01 (incl. its directed worlds; those of the family recurse-from-strict-subtype - @recurse(depth: 2|3) over an edge declared on an interface and inherited by two implementors, starting at one implementor, data mixing the implementors along the recursion path, nt:recurse-from-strict-subtype - exist for this property: there the type named in the deeper resolve_coercion / resolve_neighbors calls must be the declaring interface, and a vertex of the other implementor is pulled through them); per accepted (query, dataset) one (contract-exec <schema> <data> <query> <ir> <args>) request: the implementation runs the query under the contract-checking adapter and answers the rows exactly like exec (model = rows of the Lean Interp). Oracle on the implementation: the contract-checking wrapper adapter validates every real call against the generated schema and the dataset's typing: type defined; property defined on it or __typename; edge defined on it; coercion only from an interface to a strict subtype; parameters = exactly the declared names with values valid for the declared types (explicit / default / null); every non-None active vertex pulled through a call is an instance of the named type. Non-trivial (nt:<feature>): the query has a recursion with implicit coercion or from a subtype, a coercion, a fold inside an optional scope, an imported tag, or an edge parameter."
     }
     fn generate(&self, tier: Tier, rng: &mut Rng) -> Vec<Case> {
         let (worlds, stats) = generate_worlds(rng, &WorldKnobs::for_tier(tier));
@@ -410,7 +412,7 @@ impl Prop for C21 {
         fails
     }
     fn post_tags(&self, e: &Evaluated) -> Vec<String> {
-        ["recurse-implicit-coercion", "recurse-4a", "coerce", "fold-in-opt", "tag-import", "param-explicit", "param-defaulted"]
+        ["recurse-implicit-coercion", "recurse-4a", "coerce", "fold-in-opt", "tag-import", "param-explicit", "param-defaulted", engine::recurse_subtype::FEATURE]
             .iter()
             .filter(|f| e.tags.iter().any(|t| t == *f))
             .map(|f| format!("nt:{f}"))
